@@ -221,7 +221,7 @@ def main(tier, replay=None):
                 meshes[(rec["name"], rec["Dim"])] = rec
             behs = [b for b in em.payloads("BEH") if b["dim"] == 2 and b["mesh"] in (("T1", "T2", "T4") if tier == "quick" else ("T1", "T2", "T4", "Q1"))]
             rng.shuffle(behs)
-            behs = behs[:150 if tier == "quick" else 3000]
+            behs = behs[:150 if tier == "quick" else 1500]
             rep.coverage["bc_lists_token_replayed"] = len(behs)
             for c in c14.cases_from_tlc(behs, meshes, rng):
                 tid += 1
@@ -247,6 +247,17 @@ def main(tier, replay=None):
                     continue
                 chosen.append(c); need |= keys; nj2 += c["mat"] == "j2"
             allc = chosen
+        else:
+            # thorough: every non-J2 configuration, and the path-dependent material once per (kind, projection)
+            seen_j2, keep = set(), []
+            for c in allc:
+                if c["mat"] == "j2":
+                    k = (c["kind"], c["proj"])
+                    if k in seen_j2:
+                        continue
+                    seen_j2.add(k)
+                keep.append(c)
+            allc = keep
         rep.coverage["configurations_run"] = len(allc)
         for c in allc:
             tid += 1
@@ -255,7 +266,7 @@ def main(tier, replay=None):
             cases[tid] = dict(mode="config", cfg=c, seed=s)
         parts = [b["parts"] for b in blk.payloads("BEH")]
         rng.shuffle(parts)
-        for i, p in enumerate(parts[:4 if tier == "quick" else len(parts)]):
+        for i, p in enumerate(parts[:4 if tier == "quick" else 40]):
             tid += 1
             s = rng.randrange(1 << 30)
             mat = "j2" if (i % 6 == 3) else "neohookean"
